@@ -4,7 +4,7 @@ Helper definitions and lemmas for C02 / C16 (occurrence arithmetic), part 1:
 * the statement-level vocabulary (`names`, `distinctNames`, `wf`),
 * `processAttrPath` characterised through `pathMaxProd`, `pathMinProd`, `pathCMin`,
 * with pairwise distinct names `effectiveChoice` and `mergeDuplicates` do nothing, so
-  `occurs ss = some (calculatePaths ss)`.
+  `occurs ss = calculatePaths ss`.
 -/
 import XsdataModel.Gen.Occurs
 
@@ -251,7 +251,7 @@ theorem groupRepeating_nil (ss : List Site) (hn : (ss.map (·.name)).Nodup) :
   omega
 
 theorem effectiveChoice_nodup (ss : List Site) (hn : (ss.map (·.name)).Nodup) :
-    effectiveChoice ss = some ss := by
+    effectiveChoice ss = ss := by
   unfold effectiveChoice
   simp [groupRepeating_nil ss hn]
 
@@ -301,11 +301,10 @@ theorem mergeDuplicates_nodup (ss : List Site) (hn : (ss.map (·.name)).Nodup) :
 
 /-- with pairwise distinct names only `CalculateAttributePaths` changes anything -/
 theorem occurs_nodup (ss : List Site) (hn : (ss.map (·.name)).Nodup) :
-    occurs ss = some (ss.map processAttrPath) := by
+    occurs ss = ss.map processAttrPath := by
   unfold occurs
   have hn' : ((calculatePaths ss).map (·.name)).Nodup := by rw [calculatePaths_names]; exact hn
-  rw [effectiveChoice_nodup _ hn', Option.map_some, mergeDuplicates_nodup _ hn',
-    calculatePaths_eq_map]
+  rw [effectiveChoice_nodup _ hn', mergeDuplicates_nodup _ hn', calculatePaths_eq_map]
 
 /-! ### the `index` decoration of `sites` / `dtdSites` -/
 
@@ -313,7 +312,7 @@ def withIndex (raw : List Site) : List Site :=
   (List.range raw.length).zip raw |>.map fun (i, s) => { s with index := i }
 
 theorem sites_eq (p : Particle) : sites p = withIndex (sitesAux p [] 1).1 := rfl
-theorem dtdSites_eq (c : DtdContent) : dtdSites c = withIndex (buildContent c {} 1).1 := rfl
+theorem dtdSites_eq (c : DtdContent) : dtdSites c = withIndex (buildContent c [] 1).1 := rfl
 
 theorem withIndex_names (raw : List Site) : (withIndex raw).map (·.name) = raw.map (·.name) := by
   unfold withIndex
